@@ -174,3 +174,43 @@ PROPS["C07"] = {
     "level_note": COMMON_NOTE + "Go mutex/channel semantics are modelled (one action per critical section).",
     "design_ref": "DESIGN.md section 5, C07",
 }
+
+SUP_RULE = ("scenarios: committed corpus (one per repaired or recorded finding and the classic shapes), then seeded random supervisor "
+            "scenarios: 1-5 instrumented mock runnables with every capability mix (Stateable/Reloadable/ReloadSender/ShutdownSender), "
+            "free or lifecycle-style Stop, Run that waits for Stop/cancel, exits by itself (nil / cancellation-wrapped / real error) or "
+            "never returns, readiness after 0..4 polls or never; 0-4 external stimuli (INT, TERM, HUP, USR1, parent cancel, Shutdown() "
+            "callers, ShutdownSender/ReloadSender triggers, ReloadAll) on a 0-50 ms grid, often within 0-1 ms of each other, during "
+            "startup, steady state and shutdown; real time with 1-3 ms startup delay, 40-100 ms startup timeout. The recorded event "
+            "trace must be a trace of the Lean supervisor model (acceptor over sets of model states) and satisfy the Lean statement of "
+            "the property. Non-trivial = at least 2 runnables or 2 stimuli and a shutdown happened; distinct by the event trace.")
+SUP_ASSUME = ["Go scheduler, channels, sync.Once, WaitGroup and context semantics are modelled (DESIGN.md section 4.0), not verified",
+              "events are recorded inside the mock calls by one mutex-protected recorder: the order is consistent with happens-before"]
+for _pid, _thms, _text in [
+    ("C01", ["GoSup.Props.C01.c01_order", "GoSup.Props.C01.c01_all_stopped_when_run_returns",
+             "GoSup.Props.C01.c01_cancel_only_after_all_stops"],
+     "Invariant proofs over the supervisor LTS for any number of runnables, callers and any schedule: the Stop events are always a "
+     "prefix of the reverse-order, one-at-a-time sequence; complete when Run()/Shutdown() return; no assumption on runnables."),
+    ("C02", ["GoSup.Props.C02.c02_no_panic"],
+     "Invariant proof that the panic transition (send on the closed error channel) is unreachable for any runnable behaviour; prompt "
+     "and bounded termination are checked on traces by the Lean statement and the model acceptor (liveness theorems: see DESIGN.md)."),
+    ("C03", ["GoSup.Props.C03.c03_no_launch_after_abort", "GoSup.Props.C03.c03_invoke_once", "GoSup.Props.C03.c03_gate_exit"],
+     "Step theorems over the supervisor LTS for every state and action: a gate is left towards the rest of the loop only by a true "
+     "readiness poll or with the context cancelled; after an abort nothing is launched; Run is invoked from a state left for good."),
+    ("C04", ["GoSup.Props.C04.c04_result_is_a_returned_error", "GoSup.Props.C04.c04_nil_without_failure",
+             "GoSup.Props.C04.c04_hup_and_unknown_signals_keep_reaping"],
+     "Invariant proof over the supervisor LTS: every error value in flight or returned by Run() was returned by some runnable's "
+     "Run; without a real failure the result is nil (or the startup timeout); error classification model validated against errors.Is."),
+]:
+    PROPS[_pid] = {
+        "skeleton_fns": SUP_CORE + (SUP_RELOAD + LIFECYCLE if _pid == "C02" else []),
+        "lean_modules": ["GoSup.Props." + _pid],
+        "theorems": _thms,
+        "ties": [],
+        "legs": [{"name": "sup", "cmd": "sup"}] + ([{"name": "errclass", "cmd": "errclass"}] if _pid == "C04" else []),
+        "rule": SUP_RULE,
+        "assumptions": SUP_ASSUME,
+        "trusted_base": [],
+        "level_text": _text,
+        "level_note": COMMON_NOTE + "Runnables are arbitrary environment processes unless a theorem states an assumption.",
+        "design_ref": "DESIGN.md section 5, " + _pid,
+    }
